@@ -48,12 +48,13 @@ TRUSTED = [
     "C18 /proc/<pid>/status: `Cpus_allowed_list` is the task's current mask printed as a range list (%*pbl); the harness renderer is checked against the live kernel on every run",
 ]
 MANIFEST = {
-    "level_text": "Machine-checked Lean 4 proofs over a four-layer model (simulated kernel, native layer with the translator's IOPRIO_CLASS_SHIFT, _pslinux.Process under wrap_exceptions, psutil.Process): ioprio pack/unpack round-trip for every class < 8 and data < 8192; one refinement theorem C18_refines (for EVERY kernel state, process and request, whenever the specification promises an outcome the model produces exactly that outcome and that kernel) with the named corollaries set-then-get for nice/ionice/cpu_affinity/rlimit on every valid value, other processes and other attributes unchanged, the listed invalid requests raise ValueError with an empty effect log, cpu_affinity([]) selects all eligible CPUs, duplicates and order are irrelevant, the get form is sorted and duplicate-free. The native getters take the C errno on entry as an input (translator facts: is errno cleared, which failure test): C18_nice_get_exact / C18_ionice_get_exact / C18_affinity_get_exact hold for every kernel value (nice -1 included) and every entry errno, C18_context_irrelevant carries every theorem over to calls made in any execution context (entry errno; status file cached by oneshot()), with proved counterexamples for the three broken errno protocols (C18_stale_errno_counterexample) and for the stale status file (C18_oneshot_stale_status_counterexample). C18_invalid_cpus_repaired: with the EINVAL->ValueError fall-through (a translator fact; landed) the only-unusable-CPU statement holds at full strength in every context. C18_refines_any_context: under that repair the refinement holds for every request in every context with no excluded region. rlimit: RLIM_INFINITY conversion round trip, soft > hard and resource out of range give ValueError with the kernel unchanged. With fix aebc260 landed (EINVAL -> ValueError after the diagnosis loop; obligation cfg_einval_is_valueError) the statements hold for the code as it is with no excluded region and no open finding: C18_invalid_cpus, C18_refines_code. The world is general about CPU numbering: possible ids 0..ncpu-1, any set of them online/in the cpuset (holes allowed), and the number of cpuN lines of /proc/stat (len(per_cpu_times())) is an independent parameter <= ncpu; C18_empty_selects_all_eligible and C18_refines_code hold in all such worlds for the range(1024) request (translator facts emptyAffinityRange / emptyAffinityUsesStatCount, consumed by cfg_good), C18_empty_count_counterexample shows that the range(len(per_cpu_times())) request (seeded C18-2) leaves out eligible CPUs when a CPU in the middle is offline and fails in a container with a virtualised /proc/stat, C18_valid_cpu_beyond_stat_lines that a valid CPU id >= the number of lines is accepted. Proved counterexamples for the superseded shapes of the code: the empty list resolved through the status file (C18_empty_needs_full_mask), the only-ineligible CPU list answered with OSError before the fix (C18_invalid_cpus_counterexample(X)). Tied to the code by translator facts (shift and macro shapes from C, level bounds, class set, enum members, pair length, PID-0 refusal, front-end rules) feeding the proof obligation cfg_good, by an exhaustive differential run against a simulated kernel over a fake procfs, and by a live run on spawned child processes through the freshly built extension; every call of the correspondence is made in a call mode drawn at random (plain, fresh oneshot, warm oneshot, as_dict, process_iter object, process_iter(attrs).info, second call, whole history inside one warm oneshot block) and the modes are enumerated completely on a small sub-domain. Round 2: the arguments are modelled as Python objects (stepPy, what the driver runs): int-like scalars as plain int / IntEnum member (the IOPRIO_CLASS_* constants) / bool, CPUs as list / tuple / set / range / iterator, limits as tuple / list / iterator, positional or keyword; C18_arg_form_irrelevant and C18_same_values_same_effect (forms of sized arguments never matter), C18_cpu_iterator, C18_refines_code_py (refinement for the code as it is with the arguments as written, every context), the characterisations C18_empty_iterator_is_refused (an exhausted iterator is truthy: ValueError, the mask is not reset - outside the statement, which names the empty list) and C18_limits_iterator_TypeError; C18_exception_no_effect: EVERY call that raises, in any form, configuration, kernel and context, leaves the kernel exactly as it was; C18_others_unchanged_py (frame in every context); a vanished process (C18_gone_process: ESRCH -> NoSuchProcess for the get forms, the gone-process half of the pre-set guard for every set form before its arguments are looked at). The correspondence runs the ionice table {None,0,1,2,3,4,-1} x {None,-1,0,1,4,7,8} x {int, IOPRIO_CLASS_* member} x {int, bool, enum} x {positional, keyword} completely, every call family in every argument form, a vanished and a zombie target (simulated and a real zombie child), and checks the exact result types (pionice namedtuple holding an IOPriority member and an int, list of int, tuple of two int).",
-    "level_note": "Trusted: Lean kernel + {propext, Classical.choice, Quot.sound}; translator; correspondence harness; the simulated kernel's rules (validated live on this kernel only; ioprio class masking is that of Linux >= 6.x); a cpuset is given as cpuset-and-online (the simulated sched_setaffinity intersects with it); /proc/stat shows at most ncpu cpuN lines; privilege failures other than CAP_SYS_RESOURCE/nr_open are not modelled; PID reuse guard is C01's.",
-    "technique": "Lean 4 refinement proof by case analysis over requests + bit-arithmetic lemmas + errno-protocol model of the native getters + translator-fed proof obligation + exhaustive differential correspondence (simulated kernel) in randomised call modes + live differential run with a poisoned errno",
+    "level_text": "Machine-checked Lean 4 proofs over a layered model: simulated kernel (rules + the EPERM/EACCES permission tests of setpriority(2), ioprio_set(2), sched_setaffinity(2), prlimit(2); sched_getaffinity(2) refusing a mask shorter than nr_cpu_ids), native layer (translator's IOPRIO_CLASS_SHIFT; errno protocol of the three getters; the return-value tests of the three setters; the sizing loop of the affinity getter), _pslinux.Process under wrap_exceptions, psutil.Process, and the arguments as Python objects. EVERY property theorem is stated for stepPy - the call as the caller writes it, in an execution context (entry errno, status file cached by oneshot()) - which is what the driver runs against the real code (stepPy cfg, cfg built from the translator's facts); the theorems quantify over every configuration that is Good and has the EINVAL->ValueError fall-through, and cfg_good / cfg_einval_is_valueError are the obligations that the current source is one (the superseded layer `step` of rounds 1-2 is a proof layer in Proofs/C18Step.lean, nothing is claimed about it). C18_refines_py: for every kernel state, existing process, context and request, whatever the specification promises to this caller (expectPy: written from the statement and the man pages; nothing is promised where the caller lacks the privilege) the call yields exactly that result and that kernel (all per-process states + effect log); C18_refines_code_py is the instance for the code as it is, outside the region of the known finding C18-huge-cpu-overflowerror. Named clauses, all for stepPy: C18_py_get_nice/_ionice/_affinity/_rlimit (get returns the kernel's value, every entry errno, nice -1 included, kernels with up to 1024 possible CPU ids through the sizing loop); C18_py_set_then_get_nice/_ionice/_affinity/_rlimit (every valid value the caller is permitted to set, every argument form: success, exactly that attribute replaced, exactly one effect logged, get in any context returns it); C18_py_others_unchanged and C18_exception_no_effect (frame; EVERY raising call leaves the kernel exactly as it was); C18_py_invalid_ValueError_no_effect (level outside 0-7 for EVERY class, level for idle/none, level without class, limits not a pair: ValueError, nothing changes, for every caller); C18_py_empty_selects_all_eligible. CPU lists naming only unusable CPUs: C18_invalid_cpus_Full is the statement for ANY ints; it is refuted for the source as found (C18_invalid_cpus_counterexample: cpu_affinity([2**63]) raises OverflowError - known finding C18-huge-cpu-overflowerror, PENDING fixes/C18-affinity-overflow-valueerror.diff), proved for every list of C longs (C18_py_invalid_cpus_partial) and for the repaired source (C18_invalid_cpus_repaired; fact affinityOverflowRaisesValueError); C18_huge_cpu_raises: in the region nothing changes. Privileges: C18_py_nice_refused (foreign process -> EPERM, lowering beyond RLIMIT_NICE -> EACCES: AccessDenied, kernel unchanged) and C18_unchecked_setter_counterexample (with the return-value test dropped from psutil_posix_setpriority the refused call returns None while the kernel keeps the old value; facts setpriorityChecksRetval / ioprioSetChecksRetval / affinitySetChecksRetval feed cfg_good). Sizing loop: C18_affinity_get_sizing_loop (200 CPU ids: two EINVAL rounds then the mask; errno test flipped -> OSError(EINVAL); mask never grows -> no return; success read from errno -> stale EINVAL), facts affinityGetInitBits / affinityGetRetryTest / affinityGetGrowth / affinityGetErrTest feed cfg_good. Counterexamples for the superseded / seeded shapes: C18_stale_errno_counterexample (three broken errno protocols, seeded C18-1), C18_einval_fallthrough_needed (before aebc260; stale status file inside oneshot()), C18_empty_request_shape_counterexamples (empty list resolved through the status file; range(len(per_cpu_times())) with an offline CPU / virtualised /proc/stat, seeded C18-2), C18_empty_selects_all_eligible_with_holes. Arguments as Python objects: C18_arg_form_irrelevant, C18_same_values_same_effect, C18_cpu_iterator; characterisations outside the statement: C18_empty_iterator_is_refused, C18_limits_iterator_TypeError; C18_gone_process, C18_rlimit_pid0_refused, C18_pid0_is_the_caller. Tied to the code by 40 translator facts (total extractors, extracted independently) feeding cfg_good, by an exhaustive differential run against a simulated kernel over a fake procfs in randomised call modes, and by live runs through the freshly built extension: a spawned child as root (state read back from the OS after every call), a real zombie, a /proc/stat with a missing cpuN line, a forked copy of the harness that drops to an unprivileged uid and calls on itself and on root's child (EPERM/EACCES must reach the caller; a set form that returns must show its value in the kernel), and a fresh interpreter under an LD_PRELOAD shim whose sched_getaffinity refuses masks shorter than a pretended nr_cpu_ids of 64..1024 (the growth branch of the sizing loop runs 0-4 rounds).",
+    "level_note": "Trusted: Lean kernel + {propext, Classical.choice, Quot.sound}; translator; correspondence harness; the simulated kernel's rules and permission tests (validated live on this kernel only; ioprio class masking is that of Linux >= 6.x); a cpuset is given as cpuset-and-online (the simulated sched_setaffinity intersects with it); /proc/stat shows at most ncpu cpuN lines; ncpu (= nr_cpu_ids) <= 1024; the sim part replaces the 7 native entry points by recorders (C edits are seen by the translator and the live parts only); single-threaded targets; PID reuse guard is C01's. Open finding: C18-huge-cpu-overflowerror (PENDING fix).",
+    "technique": "Lean 4 refinement proof by case analysis over requests + bridge lemma (permitted caller, good configuration: complete system calls / errno protocol / failure tests / sizing loop collapse to the proof layer) + bit-arithmetic lemmas + translator-fed proof obligations + exhaustive differential correspondence (simulated kernel) in randomised call modes + live differential runs (root child with poisoned errno, zombie, holed /proc/stat, unprivileged forked caller, LD_PRELOAD shim forcing EINVAL in the affinity getter)",
     "design_ref": "DESIGN.md §5 C18",
 }
 ASSUMPTIONS = [
+    "theorems about successful sets are conditional on the caller being permitted (Spec.permitted: same owner or CAP_SYS_NICE / CAP_SYS_RESOURCE, RLIMIT_NICE, RT class); a process is owned by the caller or not (one `foreign` flag: no setuid/saved-uid distinctions, no user namespaces, no LSM refusals, no PF_NO_SETAFFINITY kernel threads)",
     "the process exists for the whole call and PID != 0 (Process(0) does not exist on Linux; rlimit's PID-0 refusal is modelled and checked)",
     "possible CPU ids are 0..ncpu-1 with ncpu <= 1024 (CPU_SETSIZE of the fixed cpu_set_t in proc.c); which of them are online / in the cpuset is arbitrary; /proc/stat has at most ncpu cpuN lines (one per online CPU, or fewer when virtualised)",
     "arguments are int-like scalars (int, IntEnum member, bool) and list / tuple / set / range / iterator containers of ints; floats, strings, numpy arrays, a bare int where a sequence is expected are not modelled",
@@ -152,21 +153,25 @@ def _ionice_set_facts(tree):
 
 
 def _rlimit_facts(tree):
+    """Total: {"pid0": bool, "pair": n}. A test counts only when it is executed BEFORE the prlimit call it guards (source
+    order inside the function: the PID-0 test before every prlimit call, the `len(limits) != n` test before the
+    three-argument call). pair = 0: no such test (a value `Cfg.Good.pair` rejects)."""
     fn = _methods(tree, "Process")["rlimit"]
+    calls = [n for n in ast.walk(fn) if isinstance(n, ast.Call) and extract.dotted(n.func).split(".")[-1] == "prlimit"]
+    first_any = min([c.lineno for c in calls], default=10 ** 9)
+    first_set = min([c.lineno for c in calls if len(c.args) + len(c.keywords) >= 3], default=10 ** 9)
     pid0 = False
-    pair = None
+    pair = 0
     for n in ast.walk(fn):
         if isinstance(n, ast.If) and isinstance(n.test, ast.Compare) and len(n.test.ops) == 1:
             l = n.test.left
             if extract.dotted(l) == "self.pid" and isinstance(n.test.ops[0], ast.Eq) \
-                    and extract.const(n.test.comparators[0]) == 0 and _raises(n, "ValueError"):
+                    and extract.const(n.test.comparators[0]) == 0 and _raises(n, "ValueError") and n.lineno < first_any:
                 pid0 = True
-            if isinstance(l, ast.Call) and extract.dotted(l.func) == "len" and extract.dotted(l.args[0]) == "limits" \
-                    and isinstance(n.test.ops[0], ast.NotEq) and _raises(n, "ValueError"):
-                pair = extract.const(n.test.comparators[0])
-    if pair is None:
-        raise NotRecognised("len(limits) test of rlimit not found")
-    # the pid-0 test must come before the first prlimit call
+            if isinstance(l, ast.Call) and extract.dotted(l.func) == "len" and l.args and extract.dotted(l.args[0]) == "limits" \
+                    and isinstance(n.test.ops[0], ast.NotEq) and _raises(n, "ValueError") and n.lineno < first_set:
+                c = extract.const(n.test.comparators[0])
+                pair = c if isinstance(c, int) and c >= 0 else 0
     return {"pid0": pid0, "pair": pair}
 
 
@@ -525,7 +530,7 @@ def facts(snap, F):
     F.try_add("ioprioSetRangeCheck", "Option (Int × Int × Int × Int)",
               lambda: extract.lean_opt(_c_range(snap.source("arch/linux/proc.c")),
                                        lambda t: "(" + ", ".join(extract.lean_int(x) for x in t[:4]) + ")"),
-              "bounds (a, b, c, d) of `if (ioclass < a || ioclass > b || iodata < c || iodata > d)` -> ValueError in psutil_proc_ioprio_set before the packing; none = no such check")
+              "bounds (a, b, c, d) of the argument check `if (ioclass < a || ioclass > b || iodata < c || iodata > d)` of psutil_proc_ioprio_set before the packing (what it raises: fact ioprioSetRangeRaisesEinval); none = no such check")
     F.try_add("ioprioSetRangeRaisesEinval", "Bool",
               lambda: extract.lean_bool(bool((_c_range(snap.source("arch/linux/proc.c")) or (0, 0, 0, 0, False))[4])),
               "that argument check raises OSError(EINVAL) (true) or ValueError (false; also when there is no check)")
@@ -1716,7 +1721,12 @@ def live_ops(ctx, env, st0):
     ops += [op(T, R_aff(E[:1] * 3 + E[1:2])), op(T, R_aff()),
             op(T, R_aff([ncpu])), op(T, R_aff([ncpu + 7, 1023])), op(T, R_aff([1024])), op(T, R_aff([5000, 10000])),
             op(T, R_aff([-1])), op(T, R_aff([E[0], -1])), op(T, R_aff([-2])), op(T, R_aff([E[0], ncpu])),
-            op(T, R_aff([E[-1], 5000])), op(T, R_aff()), op(T, R_aff([2**63])), op(T, R_aff([])), op(T, R_aff())]
+            op(T, R_aff([E[-1], 5000])), op(T, R_aff()), op(T, R_aff([2**63])), op(T, R_aff([])), op(T, R_aff()),
+            # the cpu_set_t loop of the native setter: only -1 is refused, other negative numbers and numbers >= CPU_SETSIZE
+            # are dropped by CPU_SET (outside the statement: the model transcribes it, the live kernel shows it)
+            op(T, R_aff([E[0], -2])), op(T, R_aff()), op(T, R_aff([-2, E[1 % len(E)], 1024])), op(T, R_aff()),
+            op(T, R_aff([E[0], -2**63])), op(T, R_aff()), op(T, R_aff([-2**63 - 1])), op(T, R_aff([E[0], 2**63 - 1])), op(T, R_aff()),
+            op(T, R_aff([])), op(T, R_aff())]
     # CPUs as tuple / set / range / iterator; an exhausted iterator is not the empty list
     for l, cf in ((E[:2], "tuple"), (E[:3], "set"), (E[1:2], "iterator"), ([], "iterator"), ([], "tuple"), ([], "set"),
                   ([], "range"), ([ncpu, ncpu + 1], "range"), (E[:1], "iterator")):
@@ -2300,6 +2310,8 @@ def check_live(ctx, res):
 
 # ------------------------------------------------------------------------------ entry points
 
+_HOST_CPUS = max(os.cpu_count() or 1, len(os.sched_getaffinity(0)) if hasattr(os, "sched_getaffinity") else 1)
+
 CORPUS = [
     # empty list after the mask was narrowed to a range (the lead found while building C18)
     ("corpus", mk_world(ncpu=4, affinity=[0, 1]), [op(T_PID, R_aff([])), op(T_PID, R_aff())]),
@@ -2310,6 +2322,10 @@ CORPUS = [
     # /proc/stat with a hole (CPU 2 offline) / virtualised: cpu_affinity([]) must still select ALL eligible CPUs (seeded C18-2)
     ("corpus", mk_world(ncpu=4, online=[0, 1, 3], affinity=[0]), [op(T_PID, R_aff([])), op(T_PID, R_aff())]),
     ("corpus", mk_world(ncpu=6, stat=[0, 1], cpuset=[4, 5], affinity=[4]), [op(T_PID, R_aff([])), op(T_PID, R_aff())]),
+    # more possible CPU ids than THIS host has CPUs (offline CPUs below the highest id, a bigger machine): a request for
+    # range(os.cpu_count()) / range(len(os.sched_getaffinity(0))) instead of range(1024) misses the eligible CPUs above
+    ("corpus", mk_world(ncpu=_HOST_CPUS + 8, cpuset=[1, _HOST_CPUS + 3], affinity=[1]), [op(T_PID, R_aff([])), op(T_PID, R_aff())]),
+    ("corpus", mk_world(ncpu=_HOST_CPUS + 2, online=[0, _HOST_CPUS + 1], affinity=[0]), [op(T_PID, R_aff([])), op(T_PID, R_aff())]),
     ("corpus", mk_world(), [op(T_PID, R_ionice(None, 3)), op(T_PID, R_ionice(3, 1)), op(T_PID, R_ionice(2, 8)),
                             op(T_PID, R_ionice(2, 7)), op(T_PID, R_ionice())]),
 ]
